@@ -112,6 +112,18 @@ func setups() []setup {
 		s.MessageFlows = [][2]string{{"th1", "ws"}, {"th2", "cw"}}
 		out = append(out, setup{name: "throw-wakes-catch-in-instantiated", set: s, tasks: 3, after: map[string][]string{"t1b": {"t1"}, "tw": {"t1b"}}})
 	}
+	// a process of the set has two start events (one branch ends at once, the other waits at a
+	// task): the set is complete only when both tokens are gone
+	{
+		s := &drv.Set{ID: "twostarts", Waiting: map[string]bool{}}
+		p1 := drv.NewGraph("p1")
+		chain(p1, "s:s1a", "e:e1a")
+		chain(p1, "s:s1b", "t:t1", "e:e1b")
+		p2 := drv.NewGraph("p2")
+		chain(p2, "s:s2", "e:e2")
+		s.Procs = []*drv.Graph{p1, p2}
+		out = append(out, setup{name: "two-start-events", set: s, tasks: 1})
+	}
 	// two throws of one process target the same catch event: the first wakes it, the second
 	// finds it no longer listening and changes nothing
 	{
@@ -306,7 +318,7 @@ func init() {
 			defs := su.set.Parse()
 			for si, sc := range scripts {
 				bounds := []int{0, 1}
-				if thorough && si < 3 {
+				if thorough && si < 2 && su.tasks <= 2 {
 					bounds = append(bounds, 2)
 				}
 				for _, d := range bounds {
